@@ -339,6 +339,12 @@ class Storage(Machine):
             pair = [f'SB_CONFIG_SUIT_MPI_{tag}_VENDOR_NAME="{v}"', f'SB_CONFIG_SUIT_MPI_{tag}_CLASS_NAME="{c}"']
             lines += pair if (n + len(kname)) % 2 else pair[::-1]  # the two lines of a role come in either order
             lines.append(f"SB_CONFIG_UNRELATED_{n}=y")
+            if (n + len(kname)) % 3 != 1:
+                # what a hand-edited .config holds: an older assignment of the role, commented out *after* the live
+                # one, "is not set" lines and blank lines - none of them is a setting
+                ov, oc = rows[(n + 1) % len(rows)][1] if len(rows) > 1 else ("nordicsemi.com", "nRF54H20_sample_app")
+                lines += [f'# SB_CONFIG_SUIT_MPI_{tag}_VENDOR_NAME="{ov}"', f'#SB_CONFIG_SUIT_MPI_{tag}_CLASS_NAME="{oc}"',
+                          f"# SB_CONFIG_SUIT_MPI_{tag}_EXTRA is not set", ""]
         host.write(f"{kname}.config", "\n".join(lines) + "\n")
 
     # -- mpi -----------------------------------------------------------------------------------------------------------
